@@ -191,13 +191,19 @@ __CPROVER_requires(nv_upd_calls == 0 && nv_cov == 0 && nv_done_calls == 0 && nv_
 __CPROVER_assigns(NV_MK_GHOSTS) \
 __CPROVER_ensures(!nv_thrown && NV_MK_COMMON(dataset->columns)) \
 __CPROVER_ensures(NV_GC_IN(dataset->columns) ==> (nv_mask_present && (nv_mask == 0) == NV_CATEGORICAL(nv_gf_kind) && (nv_mask == 0 || nv_mask == 1)))
-#define NV_LOOP_stats_make_flatten_1 \
+/* the two loops are told apart by their LOOP VARIABLE (NV_LOOPVAR_<fn>_<k>, emitted by the engine), not by their order: the mask may
+ * be built before or after the batches are folded */
+#define NV_CAT2(a, b) a##b
+#define NV_CAT(a, b) NV_CAT2(a, b)
+#define NV_LOOP_stats_make_flatten_1 NV_CAT(NV_MKFL_LOOP_, NV_LOOPVAR_stats_make_flatten_1)
+#define NV_LOOP_stats_make_flatten_2 NV_CAT(NV_MKFL_LOOP_, NV_LOOPVAR_stats_make_flatten_2)
+#define NV_MKFL_LOOP_i \
 __CPROVER_assigns(i, NV_MK_GHOSTS, stats.m_samples.g, stats.m_min.g, stats.m_max.g, stats.m_mean.g, stats.m_stdev.g) \
 __CPROVER_loop_invariant(0 <= i && i < size + batch && size == samples.e && nv_done_calls == 0 && !nv_thrown && nv_ctor_calls == 1 && nv_ctor_dims == dataset->columns) \
 __CPROVER_loop_invariant(NV_STATS_OK(&stats, nv_gc) && stats.m_min.n == dataset->columns && (nv_upd_calls == 0 || nv_the_stats == &stats)) \
 __CPROVER_loop_invariant(nv_cov == ((0 <= nv_gi && nv_gi < i && nv_gi < size) ? 1 : 0)) \
 __CPROVER_decreases(size + batch - i)
-#define NV_LOOP_stats_make_flatten_2 \
+#define NV_MKFL_LOOP_column \
 __CPROVER_assigns(column, enable_scaling.g, nv_other_u) \
 __CPROVER_loop_invariant(0 <= column && column <= enable_scaling.n && enable_scaling.n == dataset->columns && enable_scaling.k == nv_gc) \
 __CPROVER_loop_invariant((NV_GC_IN(dataset->columns) && column > nv_gc) ==> (enable_scaling.g == (NV_CATEGORICAL(nv_gf_kind) ? 0 : 1))) \
